@@ -862,10 +862,15 @@ impl Parser for BlockStatement {
 impl Parser for Statement {
     fn parse<'a>(this: Option<&Self>, input: TokenStream<'a>) -> IResult<'a, Self> {
         fn parse_error(input: TokenStream) -> IResult<Statement> {
+            // If there is nothing to ignore, the comments in front must not be consumed:
+            // `expect` continues at the position of the error,
+            // and they might be the doc comments of the next declaration.
+            let start = input.clone();
             let (input, ((_, ignored), mut info)) = info(tuple((
                 many0(comment),
                 ignore_until1(peek(look_ahead::stmt)),
-            )))(input)?;
+            )))(input)
+            .map_err(|err| err.map(|err| ParserError { input: start, ..err }))?;
             let err = SplError(
                 info.to_range(),
                 ParseErrorMessage::UnexpectedCharacters(
